@@ -239,6 +239,14 @@ def run_case(case):
         except C.RockitRaised as e:
             res["violations"].append(C.exc_violation(ID, e, tag))
             return res
+        except RuntimeError as e:
+            # a SUNDIALS integrator giving up while the transcribed problem is *evaluated* at this input
+            # (IDA_TOO_MUCH_WORK, CV_CONV_FAILURE ...) is a numerical limit of that integrator, not a transcription
+            if sub in ("cvodes", "idas") and ("Interface" in str(e) or "IDA" in str(e) or "CV" in str(e)):
+                res["status"] = "discarded"
+                res["note"] = "CasADi %s gave up at this input: %s" % (sub, str(e).strip().split("\n")[-1][:160])
+                return res
+            raise
         if out is None:
             res["status"] = "discarded"
             res["note"] = "no feasible point for M=%d" % M
